@@ -74,63 +74,79 @@ def normalCase (s : St) (c : Cls) : Out :=
   | .nl | .blank => .cont s
   | .bslash | .other => .post { s with ignorenl := false }
 
+/-- `case mPlus, mMinus:` (with its `fallthrough`) -/
+def plusMinusCase (s : St) (c : Cls) : Out :=
+  if c = .plus then .post { s with m := if s.m = .plus then .normal else .plus }
+  else if c = .minus then .post { s with m := if s.m = .minus then .normal else .minus }
+  else
+    let s := { s with m := .normal, ignorenl := true }
+    if isBlank c then .cont s else normalCase s c
+
+def runeCase (s : St) : Cls → Out
+  | .bslash => .post { s with m := .runeEsc }
+  | .quote => .post { s with m := .normal }
+  | .nl => .err true
+  | _ => .post s
+
+def runeEscCase (s : St) : Cls → Out
+  | .nl => .err true
+  | _ => .post { s with m := .rune }
+
+def stringCase (s : St) : Cls → Out
+  | .bslash => .post { s with m := .stringEsc }
+  | .dquote => .post { s with m := .normal }
+  | .nl => .err false
+  | _ => .post s
+
+def stringEscCase (s : St) : Cls → Out
+  | .nl => .err false
+  | _ => .post { s with m := .string }
+
+def rawStringCase (s : St) : Cls → Out
+  | .bquote => .post { s with m := .normal }
+  | _ => .post s
+
+/-- `case mSlash:`; the default arm ends in `goto dispatch` -/
+def slashCase (s : St) (pos : Int) : Cls → Out
+  | .slash => .cont { s with m := .lineComment }
+  | .star => .cont { s with m := .comment }
+  | c => normalCase { (foundtoken { s with m := .normal } (pos - 1)) with ignorenl := s.paren == 0 } c
+
+/-- `case mHash:`; the default arm ends in `goto dispatch` -/
+def hashCase (s : St) (pos : Int) : Cls → Out
+  | .bang => .rewrite { s with m := .lineComment }
+  | c => normalCase (foundtoken { s with m := .normal } (pos - 1)) c
+
+def commentCase (s : St) : Cls → Out
+  | .star => .cont { s with m := .commentStar }
+  | _ => .cont s
+
+def commentStarCase (s : St) : Cls → Out
+  | .slash => .cont { s with m := .normal }
+  | .star => .cont s
+  | _ => .cont { s with m := .comment }
+
+/-- `case mTilde:`; the default arm ends in `goto dispatch` -/
+def tildeCase (s : St) : Cls → Out
+  | .quote | .dquote | .bquote | .comma => .post { s with m := .normal }
+  | c => normalCase { s with m := .normal } c
+
 /-- the `switch m` inside the byte loop; `pos = len(buf)+i` -/
 def switchCase (s : St) (c : Cls) (pos : Int) : Out :=
   match s.m with
-  | .plus | .minus =>
-    if c = .plus then .post { s with m := if s.m = .plus then .normal else .plus }
-    else if c = .minus then .post { s with m := if s.m = .minus then .normal else .minus }
-    else
-      let s := { s with m := .normal, ignorenl := true }
-      if isBlank c then .cont s else normalCase s c
+  | .plus | .minus => plusMinusCase s c
   | .normal => normalCase s c
-  | .rune =>
-    match c with
-    | .bslash => .post { s with m := .runeEsc }
-    | .quote => .post { s with m := .normal }
-    | .nl => .err true
-    | _ => .post s
-  | .runeEsc =>
-    match c with
-    | .nl => .err true
-    | _ => .post { s with m := .rune }
-  | .string =>
-    match c with
-    | .bslash => .post { s with m := .stringEsc }
-    | .dquote => .post { s with m := .normal }
-    | .nl => .err false
-    | _ => .post s
-  | .stringEsc =>
-    match c with
-    | .nl => .err false
-    | _ => .post { s with m := .string }
-  | .rawString =>
-    match c with
-    | .bquote => .post { s with m := .normal }
-    | _ => .post s
-  | .slash =>
-    match c with
-    | .slash => .cont { s with m := .lineComment }
-    | .star => .cont { s with m := .comment }
-    | _ => normalCase { (foundtoken { s with m := .normal } (pos - 1)) with ignorenl := s.paren == 0 } c
-  | .hash =>
-    match c with
-    | .bang => .rewrite { s with m := .lineComment }
-    | _ => normalCase (foundtoken { s with m := .normal } (pos - 1)) c
+  | .rune => runeCase s c
+  | .runeEsc => runeEscCase s c
+  | .string => stringCase s c
+  | .stringEsc => stringEscCase s c
+  | .rawString => rawStringCase s c
+  | .slash => slashCase s pos c
+  | .hash => hashCase s pos c
   | .lineComment => .cont s
-  | .comment =>
-    match c with
-    | .star => .cont { s with m := .commentStar }
-    | _ => .cont s
-  | .commentStar =>
-    match c with
-    | .slash => .cont { s with m := .normal }
-    | .star => .cont s
-    | _ => .cont { s with m := .comment }
-  | .tilde =>
-    match c with
-    | .quote | .dquote | .bquote | .comma => .post { s with m := .normal }
-    | _ => normalCase { s with m := .normal } c
+  | .comment => commentCase s c
+  | .commentStar => commentStarCase s c
+  | .tilde => tildeCase s c
 
 /-- the statements after the switch -/
 def finish (s : St) (isTok : Bool) (pos : Int) : St :=
@@ -182,7 +198,7 @@ def lastIsKw (line : List UInt8) (first last : Int) : Bool :=
 structure Read where
   line : List UInt8
   eof : Bool
-  deriving Repr
+  deriving DecidableEq, Repr
 
 inductive Err
   | nil | eof | ueof | lit (rune : Bool) | panic
@@ -193,7 +209,7 @@ structure Chunk where
   firstToken : Int
   err : Err
   orig : List UInt8
-  deriving Repr
+  deriving DecidableEq, Repr
 
 def eolMode (s : St) : St := if s.m = .lineComment then { s with m := .normal } else s
 def contMode (s : St) : St := if s.m = .plus ∨ s.m = .minus then { s with m := .normal } else s
